@@ -47,6 +47,13 @@ example : firstOrderMatch 10 10 Ex.patHO Ex.tgtHO Ex.seed =
     .ok ⟨[], [("x", .comb (.comb Ex.plus Ex.a) Ex.b), ("z", Ex.a), ("y", Ex.a), ("F", Ex.p)], [("w", Ex.b)],
       [("u", "kept")]⟩ := rfl
 
+/-- a Miller pattern under a binder: `%u. ?F u` against `%v. p v` gives `F := p` (eta-contracted) and
+records the bound-variable name -/
+example : firstOrderMatch 10 10 (.abs "u" Ex.nat (.comb (.svar "F" (Ty.fn Ex.nat Ex.nat)) (.bound 0)))
+    (.abs "v" Ex.nat (.comb Ex.p (.bound 0))) MInst.empty =
+    .ok ⟨[], [("F", Ex.p)], [], [("u", "v")]⟩ := by
+  simp only [Ex.nat, Ex.p]; model_simp
+
 /-- Same for `first_order_match_list`, in either processing order. -/
 theorem match_list_extends (bf fuel : Nat) (pats ts : List Term) (inst inst' : MInst)
     (h : firstOrderMatchList bf fuel pats ts inst = .ok inst') : Ext inst inst' :=
